@@ -407,7 +407,7 @@ def fork_and_discard(b, names, rnd):
     c._ref[1] = 1
 
 
-def shift_history(c, res, query, names=('a', 'b', 'c', 'd'), spares=('s1', 's2', 's3')):
+def shift_history(c, res, query, names=('a', 'b', 'c', 'd'), spares=('s1', 's2', 's3'), blocks=None, swaps=True):
     """A few held functions over `names` in a manager that also declares unused spare variables; `query(m, b, names, held, rnd)` (which
     checks one operation against its oracle and raises Viol) alternates with changes that keep every held function but shift what a level
     or a node number means: a spare variable is undeclared (the levels below move up, node numbers stay) or declared again, two levels are
@@ -417,8 +417,14 @@ def shift_history(c, res, query, names=('a', 'b', 'c', 'd'), spares=('s1', 's2',
     import dd.autoref as A
     rnd = random.Random(c['seed'])
     names, spares = list(names), list(spares)
-    order = names + spares
-    rnd.shuffle(order)
+    if blocks is None:
+        order = names + spares
+        rnd.shuffle(order)
+    else:
+        # `blocks`: groups of names that stay next to each other (in either direction); the spare variables go between the groups
+        bl = [list(x) if rnd.random() < .5 else list(x)[::-1] for x in blocks] + [[v] for v in spares]
+        rnd.shuffle(bl)
+        order = [v for x in bl for v in x]
     m = A.BDD({nm: k for k, nm in enumerate(order)})
     b = m._bdd
     held = []
@@ -447,7 +453,7 @@ def shift_history(c, res, query, names=('a', 'b', 'c', 'd'), spares=('s1', 's2',
             b.decref(u)
             b.collect_garbage()
             new_function()
-        else:
+        elif swaps:
             i = rnd.randrange(len(b.vars) - 1)
             b.swap(i, i + 1)
         for u, t in held:
